@@ -221,6 +221,18 @@ CLAIMED: dict[str, tuple[str, str, str, str, str]] = {
         "against that specification event by event (request identity, error position, timeout duration, closing sequence).",
         "Trusted: TLC; the in-memory listener/transport; the virtual-time loop. Bounds: 1-5 requests per connection, one connection per scenario.",
     ),
+    "C17": (
+        "fault_enumeration",
+        "TLA+ spec Isolation (containment law: server stays up, healthy clients answered in order, faulty connection closed, hook order; datagram: "
+        "fresh handler) model-checked by TLC; every (hook position x exception class) cell and every connection set-up fault executed on the real "
+        "AsyncTCPNetworkServer (plain + TLS) and AsyncUDPNetworkServer with two healthy clients before/during/after the fault; merged logs validated "
+        "by TLC against IsolationTrace",
+        "DESIGN.md section 7 (C17)",
+        "Each enumerated cell is one execution of the real server in virtual time (a 60 s handshake timeout is free); TLC decides per cell that the "
+        "healthy clients' request/response sequences are those of a fault-free run, that the server is still serving, that the failing connection "
+        "is closed and that on_disconnection ran iff on_connection had completed.",
+        "Trusted: TLC; in-memory listeners; the independent TLS peer. KeyboardInterrupt/SystemExit and task cancellation are not client failures.",
+    ),
 }
 
 NOT_YET = "check not built yet in this revision of /verif (planned: see DESIGN.md section 0); not claimed until its check exists"
